@@ -1157,7 +1157,9 @@ func commitLock(batch *leveldb.Batch, lock mvccLock, key []byte, startTS, commit
 	switch lock.op {
 	case kvrpcpb.Op_Put:
 		valueType = typePut
-	case kvrpcpb.Op_Lock:
+	case kvrpcpb.Op_Lock, kvrpcpb.Op_PessimisticLock:
+		// Committing a leftover pessimistic lock changes no data (TiKV commits it
+		// as a Lock-type write).
 		valueType = typeLock
 	default:
 		valueType = typeDelete
